@@ -114,7 +114,22 @@ func Semantic(j *job.Job, s *job.Sink) {
 		for _, m := range regexp.MustCompile(`import \S+ \{ prefix (\S+); \}`).FindAllStringSubmatch(t, -1) {
 			impPfx = append(impPfx, m[1])
 		}
-		switch r.Intn(12) {
+		switch r.Intn(13) {
+		case 12:
+			// a statement that only the other kind of module may have: unknown here, like
+			// any made-up keyword, and to be reported where it stands
+			isSub := strings.Contains(t, "belongs-to ")
+			line := regexp.MustCompile(`(?m)^(\s*)(prefix \S+;|belongs-to \S+ \{ prefix \S+; \})\s*$`).FindStringIndex(t)
+			if line != nil {
+				ins := "\n  belongs-to zzowner { prefix zzo; }"
+				kw := "belongs-to"
+				if isSub {
+					ins, kw = "\n  namespace \"urn:zzextra\";", "namespace"
+				}
+				t = t[:line[1]] + ins + t[line[1]:]
+				desig = line[1] + strings.Index(ins, kw)
+				fault, want = "substatement of the other module kind", []string{kw}
+			}
 		case 0:
 			if repl("type string;", "type nosuchtype;", "type") {
 				fault, want = "bad type name", []string{"type"}
